@@ -72,14 +72,14 @@ theorem C01_net_static_witness (m0 : ℝ) (hm0 : m0 ≠ 0) (l : List ℕ) (hl : 
 /-- **`RankGap` on a correlated network with an excluded observation, defect 1** (`τ = ½`, which dominates
     every threshold of the three codes) -/
 theorem C01_net_rankgap_witness :
-    RankGap (toProblem npR).A ((npR.m0 * npR.m0) • PcW 2 [1]) (toProblem npR).S (1 / 2 : ℝ)
+    RankGap (toProblem npR).A ((npR.m0 * npR.m0) • PcN) (toProblem npR).S (1 / 2 : ℝ)
     ∧ GapThresholds (1 / 2 : ℝ) :=
-  ⟨npW_rankGap 2 [1] (Or.inl rfl) (by norm_num), gapThresholds_half⟩
+  ⟨npR_rankGap, gapThresholds_half⟩
 
 /-- hence the per-algorithm premise on `npR`, for the three algorithms -/
 theorem C01_net_solverhyp_witness (alg : Alg) (halg : alg ≠ .svd) : Net.SolverHyp alg npR :=
-  C01_net_solverhyp_of_gap npR (npW_dims 2 [1]) (npW_rows 2 [1]) (by show (2 : ℝ) ≠ 0; norm_num) (PcW 2 [1])
-    (npW_sigma_inv 2 [1]) (npW_regListOK 2 [1] (Or.inl rfl)) gapThresholds_half C01_net_rankgap_witness.1 alg halg
+  C01_net_solverhyp_of_gap npR (npW_dims 2 [1]) (npW_rows 2 [1]) (by show (2 : ℝ) ≠ 0; norm_num) PcN
+    npR_sigma_inv (npW_regListOK 2 [1] (Or.inl rfl)) gapThresholds_half C01_net_rankgap_witness.1 alg halg
 
 /-- all three algorithms answer on `npR` over ℝ, with defect 1 -/
 theorem C01_net_answers_witness (alg : Alg) (halg : alg ≠ .svd) :
@@ -115,7 +115,7 @@ theorem C01_net_solution_literal :
 /-- the explicit weighted least-squares solution of `npR` with minimal norm over `min_x_ = [1]`:
     `x = (0, 1/2)`, `v = A x − b = (1, 1/2, −1)`, `vᵀPv = 1/2` with `P = m0²·Σ⁻¹` -/
 theorem C01_net_solution_witness :
-    IsLSSolution (toProblem npR).A (toProblem npR).b ((npR.m0 * npR.m0) • PcW 2 [1]) (toProblem npR).S
+    IsLSSolution (toProblem npR).A (toProblem npR).b ((npR.m0 * npR.m0) • PcN) (toProblem npR).S
       (![0, 1 / 2] : Fin 2 → ℝ) (![1, 1 / 2, -1] : Fin 3 → ℝ) (1 / 2) := by
   have hA : ((toProblem npR).A : Matrix (Fin 3) (Fin 2) ℝ) = !![4, 4; 5, 5; 4, 4] := npW_A 2 [1]
   have hb : ((toProblem npR).b : Fin 3 → ℝ) = ![1, 2, 3] := npW_b 2 [1]
@@ -130,17 +130,17 @@ theorem C01_net_solution_witness :
     `x = (0, 1/2)`, `r = (1, 1/2, −1)`, `[pvv] = 1/2`, defect 1 -/
 theorem C01_net_of_gap_witness (alg : Alg) (halg : alg ≠ .svd) :
     ∃ a, netSolve alg npR = .ok a ∧
-      IsLSSolution (toProblem npR).A (toProblem npR).b ((npR.m0 * npR.m0) • PcW 2 [1]) (toProblem npR).S
+      IsLSSolution (toProblem npR).A (toProblem npR).b ((npR.m0 * npR.m0) • PcN) (toProblem npR).S
         (toVec (toProblem npR).n a.x) (toVec (toProblem npR).m a.r) a.pvv ∧
       toVec (toProblem npR).n a.x = (![0, 1 / 2] : Fin 2 → ℝ) ∧
       toVec (toProblem npR).m a.r = (![1, 1 / 2, -1] : Fin 3 → ℝ) ∧ a.pvv = 1 / 2 ∧ a.defect = 1 := by
   obtain ⟨a, ha, hd⟩ := C01_net_answers_witness alg halg
   have hm0 : npR.m0 ≠ 0 := by show (2 : ℝ) ≠ 0; norm_num
-  have hls := C01_net_of_gap npR (npW_dims 2 [1]) (npW_rows 2 [1]) hm0 (PcW 2 [1]) (npW_sigma_inv 2 [1])
+  have hls := C01_net_of_gap npR (npW_dims 2 [1]) (npW_rows 2 [1]) hm0 PcN npR_sigma_inv
     (npW_regListOK 2 [1] (Or.inl rfl)) gapThresholds_half C01_net_rankgap_witness.1 alg halg a ha
   obtain ⟨W, hW, hinj, -, -⟩ := C01_net_prepare C01_gap2_isSqrt npR (npW_dims 2 [1]) (npW_rows 2 [1]) hm0
-    (PcW 2 [1]) (npW_sigma_inv 2 [1]) _ (npR_prepare [1])
-  have hpd : ∀ d, d ≠ 0 → 0 < d ⬝ᵥ ((npR.m0 * npR.m0) • PcW 2 [1]) *ᵥ d := hW ▸ gram_pd W hinj
+    PcN npR_sigma_inv _ (npR_prepare [1])
+  have hpd : ∀ d, d ≠ 0 → 0 < d ⬝ᵥ ((npR.m0 * npR.m0) • PcN) *ᵥ d := hW ▸ gram_pd W hinj
   obtain ⟨ex, er, ep⟩ := C01_spec_unique hpd C01_net_rankgap_witness.1.2.resolves hls C01_net_solution_witness
   exact ⟨a, ha, hls, ex, er, ep, hd⟩
 
